@@ -55,16 +55,16 @@ const (
 	OpFNeg
 	OpFLt
 	OpFLe
-	OpFEq     // IEEE equality
-	OpFFromS  // signed BV -> float (RNE)
-	OpFFromU  // unsigned BV -> float
-	OpFToS    // float -> signed BV of width w, RTZ (unspecified if out of range)
-	OpFIsNaN  // bool
-	OpFIsInf  // bool
-	OpFRound  // cval: 0 floor 1 ceil 2 round-half-away 3 trunc
-	OpFBits   // float -> BV64 (uninterpreted on NaN payload; we model via fresh var + to_fp constraint elsewhere) -- unused
-	OpDecLen  // number of bytes FormatInt(signed64 x,10) produces -> BV64
-	OpUF      // uninterpreted function application name(args) -> BV w or float
+	OpFEq    // IEEE equality
+	OpFFromS // signed BV -> float (RNE)
+	OpFFromU // unsigned BV -> float
+	OpFToS   // float -> signed BV of width w, RTZ (unspecified if out of range)
+	OpFIsNaN // bool
+	OpFIsInf // bool
+	OpFRound // cval: 0 floor 1 ceil 2 round-half-away 3 trunc
+	OpFBits  // float -> BV64 (uninterpreted on NaN payload; we model via fresh var + to_fp constraint elsewhere) -- unused
+	OpDecLen // number of bytes FormatInt(signed64 x,10) produces -> BV64
+	OpUF     // uninterpreted function application name(args) -> BV w or float
 )
 
 type Term struct {
@@ -659,11 +659,11 @@ func (ec *evalCtx) eval(t *Term) uint64 {
 // once as (define-fun tN () Sort expr).
 
 type smtPrinter struct {
-	sb      *strings.Builder
-	emitted map[*Term]bool
-	intEnc  bool // wrapped-Int encoding
-	err     error
-	nUnk    int
+	sb         *strings.Builder
+	emitted    map[*Term]bool
+	intEnc     bool // wrapped-Int encoding
+	err        error
+	nUnk       int
 	abstracted bool
 }
 
